@@ -733,21 +733,7 @@ func suiteSchema16(r *Rng, n int, thorough bool, o *Out) {
 			}
 			// counted independently of Normalize: one entry per one-way relationship and one
 			// per two-way pair, a pair being two (type, name) ends naming each other
-			ends := map[string]bool{}
-			for _, t := range s1.Types {
-				for _, rel := range t.Rels {
-					a := rel.FromType + "\x00" + rel.FromName
-					if rel.ToName == "" {
-						ends["1 "+a] = true
-						continue
-					}
-					b := rel.ToType + "\x00" + rel.ToName
-					if b < a {
-						a, b = b, a
-					}
-					ends["2 "+a+"\x01"+b] = true
-				}
-			}
+			ends := countEnds(s1)
 			if pv == "ok" && len(rels1) != len(ends) {
 				pv = fmt.Sprintf("FAIL:%d relationships listed for %d one-way relationships and two-way pairs", len(rels1), len(ends))
 			}
@@ -768,7 +754,105 @@ func suiteSchema16(r *Rng, n int, thorough bool, o *Out) {
 			rs[i] = sxRel(rels1[i])
 		}
 		o.emit(lst("schema", "rels", sxSchema(s1)), lst(rs...), pv)
+		// a fourth build, as struct-built types declare them: BuildType leaves FromOne false,
+		// each side of a two-way pair only knows its own ToOne. Every pair is added half by
+		// half with AddRel, both halves with FromOne cleared; the listing must still hold one
+		// entry per one-way relationship and one per pair, the entry of a pair carrying the
+		// ToOne of its two sides
+		all4 := true
+		s4 := &jsonapi.Schema{}
+		for _, i := range ord {
+			_ = s4.AddType(jsonapi.Type{Name: names[i]})
+		}
+		for _, i := range opOrd {
+			if ops[i].two {
+				r1 := ops[i].rel.Normalize()
+				r2 := r1.Invert()
+				self := r1 == r2
+				r1.FromOne, r2.FromOne = false, false
+				e1 := s4.AddRel(r1.FromType, r1)
+				e2 := s4.AddRel(r2.FromType, r2)
+				if self {
+					e2 = nil // a self-inverse pair is one relationship
+				}
+				if e1 != nil || e2 != nil {
+					all4 = false
+				}
+			} else {
+				rel := ops[i].rel
+				if rel.ToName != "" {
+					rel.FromOne = false // (the relationship that is its own inverse)
+				}
+				if s4.AddRel(rel.FromType, rel) != nil {
+					all4 = false
+				}
+			}
+		}
+		rels4 := s4.Rels()
+		pv4 := "na"
+		if all4 && len(s4.Check()) == 0 {
+			pv4 = "ok"
+			o.stat("rels.struct-like")
+			ends4 := countEnds(s4)
+			if len(rels4) != len(ends4) {
+				pv4 = fmt.Sprintf("FAIL:struct-like schema: %d relationships listed for %d one-way relationships and two-way pairs", len(rels4), len(ends4))
+			}
+			for _, t := range s4.Types {
+				for _, rel := range t.Rels {
+					if rel.ToName == "" || pv4 != "ok" {
+						continue
+					}
+					seen := 0
+					for _, x := range rels4 {
+						if x.FromType == rel.FromType && x.FromName == rel.FromName && x.ToType == rel.ToType && x.ToName == rel.ToName {
+							seen++
+							if x.ToOne != rel.ToOne {
+								pv4 = fmt.Sprintf("FAIL:struct-like schema: the entry of %s does not carry the ToOne of %s.%s", x.String(), rel.FromType, rel.FromName)
+							}
+						}
+						if x.FromType == rel.ToType && x.FromName == rel.ToName && x.ToType == rel.FromType && x.ToName == rel.FromName {
+							seen++
+							if x.FromOne != rel.ToOne {
+								pv4 = fmt.Sprintf("FAIL:struct-like schema: the entry of %s does not carry as FromOne the ToOne of %s.%s", x.String(), rel.FromType, rel.FromName)
+							}
+						}
+					}
+					if seen == 0 && pv4 == "ok" {
+						pv4 = fmt.Sprintf("FAIL:struct-like schema: no entry for %s.%s", rel.FromType, rel.FromName)
+					}
+				}
+			}
+			if pv4 == "ok" && !reflect.DeepEqual(s4.Rels(), rels4) {
+				pv4 = "FAIL:struct-like schema: Rels() differs between calls"
+			}
+		}
+		rs4 := make([]string, len(rels4))
+		for i := range rels4 {
+			rs4[i] = sxRel(rels4[i])
+		}
+		o.emit(lst("schema", "rels", sxSchema(s4)), lst(rs4...), pv4)
 	}
+}
+
+// countEnds counts, independently of Normalize, one entry per one-way relationship and one per
+// two-way pair, a pair being two (type, name) ends naming each other
+func countEnds(s *jsonapi.Schema) map[string]bool {
+	ends := map[string]bool{}
+	for _, t := range s.Types {
+		for _, rel := range t.Rels {
+			a := rel.FromType + "\x00" + rel.FromName
+			if rel.ToName == "" {
+				ends["1 "+a] = true
+				continue
+			}
+			b := rel.ToType + "\x00" + rel.ToName
+			if b < a {
+				a, b = b, a
+			}
+			ends["2 "+a+"\x01"+b] = true
+		}
+	}
+	return ends
 }
 
 func init() {
